@@ -1388,6 +1388,128 @@ theorem post_hards_squash (cfg : Cfg) (hw : cfg.wild = false) (ts : List Tok) :
   · exact runRule_fis_squash (soft cfg) (soft_colon cfg) ts
   · rfl
 
+/-! ## literal spelling keeps the value -/
+
+theorem upperAF {c : Char} (h : ('A' ≤ c && c ≤ 'F') = true) :
+    c = 'A' ∨ c = 'B' ∨ c = 'C' ∨ c = 'D' ∨ c = 'E' ∨ c = 'F' := by
+  simp only [Bool.and_eq_true, decide_eq_true_eq] at h
+  have h1 : 65 ≤ c.toNat := h.1
+  have h2 : c.toNat ≤ 70 := h.2
+  have hc : c = Char.ofNat c.toNat := (Char.ofNat_toNat c).symm
+  have : c.toNat = 65 ∨ c.toNat = 66 ∨ c.toNat = 67 ∨ c.toNat = 68 ∨ c.toNat = 69 ∨ c.toNat = 70 := by omega
+  rcases this with h | h | h | h | h | h <;> rw [h] at hc <;> simp [hc]
+
+/-- what `lowerHex` keeps: the digit value, being a hex digit, being `_` -/
+theorem lowerHex_keeps (c : Char) :
+    digitVal (lowerHex c) = digitVal c ∧ isHexDigit (lowerHex c) = isHexDigit c ∧ (lowerHex c == '_') = (c == '_') := by
+  unfold lowerHex
+  split
+  · rename_i h
+    rcases upperAF h with rfl | rfl | rfl | rfl | rfl | rfl <;> decide
+  · exact ⟨rfl, rfl, rfl⟩
+
+def hexP (c : Char) : Bool := (isHexDigit c && digitVal c < 16) || c == '_'
+
+theorem hexP_lower (c : Char) : hexP (lowerHex c) = hexP c := by
+  obtain ⟨h1, h2, h3⟩ := lowerHex_keeps c
+  simp [hexP, h1, h2, h3]
+
+theorem isDigit_bounds {c : Char} (h : isDigit c = true) : 48 ≤ c.toNat ∧ c.toNat ≤ 57 := by
+  simp only [isDigit, Bool.and_eq_true, decide_eq_true_eq] at h
+  exact ⟨h.1, h.2⟩
+
+theorem hexDigit_lt16 (c : Char) (h : isHexDigit c = true) : digitVal c < 16 := by
+  unfold isHexDigit at h
+  unfold digitVal
+  by_cases hd : isDigit c = true
+  · have := isDigit_bounds hd
+    simp only [hd, if_true]; omega
+  · simp only [hd, Bool.false_eq_true, if_false]
+    by_cases hl : ('a' ≤ c && c ≤ 'f') = true
+    · simp only [hl, if_true]
+      simp only [Bool.and_eq_true, decide_eq_true_eq] at hl
+      have h1 : 97 ≤ c.toNat := hl.1
+      have h2 : c.toNat ≤ 102 := hl.2
+      omega
+    · simp only [hl, Bool.false_eq_true, if_false]
+      by_cases hu : ('A' ≤ c && c ≤ 'F') = true
+      · simp only [hu, if_true]
+        simp only [Bool.and_eq_true, decide_eq_true_eq] at hu
+        have h1 : 65 ≤ c.toNat := hu.1
+        have h2 : c.toNat ≤ 70 := hu.2
+        omega
+      · simp [hd, hl, hu] at h
+
+theorem hexP_eq : hexP = (fun c => isHexDigit c || c == '_') := by
+  funext c
+  unfold hexP
+  by_cases h : isHexDigit c = true
+  · simp [h, hexDigit_lt16 c h]
+  · simp [h]
+
+theorem takeWhile_canon (r : List Char) :
+    ((r.takeWhile hexP).map lowerHex ++ r.dropWhile hexP).takeWhile hexP = (r.takeWhile hexP).map lowerHex := by
+  induction r with
+  | nil => rfl
+  | cons c r ih =>
+    by_cases h : hexP c = true
+    · simp only [List.takeWhile_cons, List.dropWhile_cons, h, if_true, List.map_cons, List.cons_append, hexP_lower, ih]
+    · have h' : hexP c = false := by simpa using h
+      simp [h']
+
+theorem foldl_lower (r : List Char) : ∀ a : Nat,
+    ((r.map lowerHex).filter (· != '_')).foldl (fun a c => a * 16 + digitVal c) a =
+      (r.filter (· != '_')).foldl (fun a c => a * 16 + digitVal c) a := by
+  induction r with
+  | nil => intro a; rfl
+  | cons x xs ih =>
+    intro a
+    obtain ⟨h1, _, h3⟩ := lowerHex_keeps x
+    have hne : (lowerHex x != '_') = (x != '_') := by simp [bne, h3]
+    simp only [List.map_cons, List.filter_cons, hne]
+    split
+    · simp only [List.foldl_cons, h1]; exact ih _
+    · exact ih a
+
+/-- `hex_literal_case` in the validator: the canonical spelling has the same value (and, the rest of
+the text being copied, the same suffix), so two literals with equal canonical spellings have equal
+values. -/
+theorem intValue_hexCanon (cs : List Char) : intValue (hexCanon cs) = intValue cs := by
+  unfold hexCanon
+  split
+  · rename_i r
+    simp only [List.cons_append, intValue, digitsValue]
+    have e : (fun c => (isHexDigit c && decide (digitVal c < 16)) || c == '_') = hexP := rfl
+    rw [e]
+    have e2 : (fun c => isHexDigit c || c == '_') = hexP := hexP_eq.symm
+    rw [e2, takeWhile_canon, foldl_lower]
+  · rfl
+
+theorem hexCanon_eq_value {a b : List Char} (h : hexCanon a = hexCanon b) : intValue a = intValue b := by
+  rw [← intValue_hexCanon a, ← intValue_hexCanon b, h]
+
+/-- `float_literal_trailing_zero` in the validator: the canonical spelling is the text itself, or the
+text without a fractional part `.000` that holds no other digit than `0` (`1.0e5` ~ `1e5`, `1.` ~ `1`). -/
+theorem floatCanon_shape (cs : List Char) :
+    floatCanon cs = cs ∨
+    ∃ ip fp rest, cs = ip ++ '.' :: (fp ++ rest) ∧ fp.all (fun c => c == '0' || c == '_') = true ∧
+      floatCanon cs = ip ++ rest := by
+  unfold floatCanon
+  split
+  · exact Or.inl rfl
+  · exact Or.inl rfl
+  · exact Or.inl rfl
+  · simp only []
+    split
+    · rename_i r hr
+      split
+      · rename_i hz
+        refine Or.inr ⟨cs.takeWhile isDecDigit_, r.takeWhile isDecDigit_, r.dropWhile isDecDigit_, ?_, hz, rfl⟩
+        rw [List.takeWhile_append_dropWhile, ← hr, List.takeWhile_append_dropWhile]
+      · exact Or.inl rfl
+    · exact Or.inl rfl
+
+
 /-! ## a toy lexer for the examples (blank-separated words) -/
 def splitSp : List Char → List Char → List (List Char)
   | [], cur => [cur.reverse]
